@@ -151,6 +151,106 @@ theorem C02_equivalence (ext inc : Bool) (ds : List Call) (hx : ∀ d ∈ ds, Pl
       subst e1 e2
       exact ⟨cond, hc, by rw [← rep_val hj X p.1 cond hrep']; exact hb⟩
 
+/-! ### minimize statements -/
+/-- value of the minimize statements of priority `p` in a call list under `X` -/
+def costAt (cs : List Call) (p : Int) (X : I) : Int := costM X (minsOf cs) p
+
+/-- the sum of the negative weights of the statements of priority `p` -/
+def negM (Ms : List (Int × List (Int × Int))) (p : Int) : Int :=
+  ((Ms.filter (fun q => q.1 == p)).map (fun q => ((q.2.filter (fun w => w.2 < 0)).map (·.2)).sum)).sum
+
+theorem litR_neg (X : I) (l : Int) (hl : l ≠ 0) : litR X X (-l) = !litR X X l := by
+  unfold litR
+  by_cases h : 0 < l
+  · have : ¬ (0 : Int) < -l := by omega
+    rw [if_pos h, if_neg this, Int.natAbs_neg]
+  · have : (0 : Int) < -l := by omega
+    rw [if_neg h, if_pos this, Int.natAbs_neg]; simp
+
+theorem wsum_flip (X : I) (ws : List (Int × Int)) (hz : ∀ p ∈ ws, p.1 ≠ 0) :
+    wsum X X (ws.map flipNeg) = wsum X X ws - ((ws.filter (fun p => p.2 < 0)).map (·.2)).sum :=
+  C02_minimize_flip (litR X X) (litR_neg X) ws hz
+
+theorem costM_flip (X : I) (Ms : List (Int × List (Int × Int))) (hz : ∀ pl ∈ Ms, ∀ q ∈ pl.2, q.1 ≠ 0) (p : Int) :
+    costM X (Ms.map (fun q => (q.1, q.2.map flipNeg))) p = costM X Ms p - negM Ms p := by
+  induction Ms with
+  | nil => rfl
+  | cons e r ih =>
+    have ih' := ih (fun pl h => hz pl (by simp [h]))
+    rw [List.map_cons, costM_cons, costM_cons, ih']
+    simp only
+    unfold negM
+    by_cases h : (e.1 == p) = true
+    · simp only [h, ↓reduceIte, List.filter_cons, List.map_cons, List.sum_cons]
+      rw [wsum_flip X e.2 (hz e (by simp))]
+      omega
+    · simp only [h, ↓reduceIte, List.filter_cons, Bool.false_eq_true]
+      omega
+
+theorem costM_ren {c : Ctx} (ok : c.Ok) (X : I) (l : List (Int × List (Int × Int)))
+    (h : ∀ pl ∈ l, ∀ q ∈ pl.2, q.1 ≠ 0 ∧ q.1.natAbs ∈ c.dom) (p : Int) :
+    costM (c.E X X) (l.map (fun pl => (pl.1, renW c.m pl.2))) p = costM X l p := by
+  induction l with
+  | nil => rfl
+  | cons e r ih =>
+    rw [List.map_cons, costM_cons, costM_cons, ih (fun pl hp => h pl (by simp [hp]))]
+    simp only
+    have e1 : wsum (c.E X X) (c.E X X) (renW c.m e.2) = wsum X X e.2 := by
+      unfold renW
+      rw [wsum_ren ok _ _ e.2 (h e (by simp))]
+      apply wsum_congr
+      intro q hq
+      have := (h e (by simp) q hq).2
+      exact ⟨R_E ok X X _ this, R_E ok X X _ this⟩
+    rw [e1]
+
+/-- **C02 (optimisation)**: under corresponding answer sets, for every priority the cost in the emitted program is the
+    cost in the given program minus a constant — the sum of the negative weights of that priority (they were moved to
+    the complementary literals).  So the order of answer sets by cost, priority by priority, is the same.
+    (`C02_minimize_sorted` + `flushMinimize_order`: one emitted statement per priority, lower priorities first.) -/
+theorem C02_cost (ext inc : Bool) (ds : List Call) (hx : ∀ d ∈ ds, PlainOk d) :
+    ∃ E : I → I,
+      (∀ X, Stable (rulesOf ds) X →
+        Stable (rulesOf (convert ext (stepCalls inc ds)).out) (E X) ∧ E X 1 = false ∧ restrict (convert ext (stepCalls inc ds)) (E X) = X) ∧
+      (∀ X', Stable (rulesOf (convert ext (stepCalls inc ds)).out) X' → X' 1 = false → E (restrict (convert ext (stepCalls inc ds)) X') = X') ∧
+      (∀ X p, costAt (convert ext (stepCalls inc ds)).out p (E X) = costAt ds p X - negM (minsOf ds) p) := by
+  obtain ⟨defs, hj, hk, hst, hpi⟩ := J.step ext inc ds hx
+  obtain ⟨defs0, hj0, _, hM⟩ := JKM.pre ext inc ds hx
+  have ok := ctx_ok hj
+  have tr := ctx_trans hj
+  refine ⟨fun X => (ctxOf (convert ext (stepCalls inc ds)) defs).E X X, ?_, ?_, ?_⟩
+  · intro X hs
+    have hs' := (stable_filter_kept _ X).mpr hs
+    obtain ⟨h1, h2, h3⟩ := translation_stable ok tr hs'
+    refine ⟨h1, h2, ?_⟩
+    rw [restrict_eq _ hj.inv defs]; exact h3
+  · intro X' hs h1
+    obtain ⟨h2, h3⟩ := translation_stable_back ok tr X' hs h1
+    rw [restrict_eq _ hj.inv defs]
+    exact h3.symm
+  · intro X p
+    have hcs := convert_step ext inc ds
+    have hag : Agree ((preEnd ext inc ds).apply .endStep) (finalMap (convert ext (stepCalls inc ds))) := by
+      rw [← hcs]; exact agree_final _ hj.inv
+    obtain ⟨g1, g2⟩ := final_mins _ hj0.nofail hj0.noext hj0.noheur hM.nomin hj0.inv _ hag
+    rw [← hcs] at g1 g2
+    unfold costAt
+    rw [g1]
+    have := costM_ren ok X (preEnd ext inc ds).minimize (fun pl hpl q hq => ⟨hM.nz pl hpl q hq, g2 pl hpl q hq⟩) p
+    refine this.trans ?_
+    rw [hM.cost X p]
+    apply costM_flip
+    intro pl hpl q hq
+    have hmem : ∃ d ∈ ds, minOf d = some pl := by
+      simp only [minsOf, List.mem_filterMap] at hpl; exact hpl
+    obtain ⟨d, hd, he⟩ := hmem
+    cases d with
+    | minimize prio lits =>
+      simp only [minOf, Option.some.injEq] at he
+      subst he
+      exact ((hx _ hd) q hq).1
+    | _ => simp [minOf] at he
+
 /-- the emitted step ends with the compute statement that makes the false atom false -/
 theorem C02_compute_false (ext inc : Bool) (ds : List Call) (hx : ∀ d ∈ ds, PlainOk d) :
     Call.assume [-1] ∈ (convert ext (stepCalls inc ds)).out ∧ (convert ext (stepCalls inc ds)).fail = false := by
